@@ -203,23 +203,23 @@ class Prop(PropBase):
             res.append(('hang', f'a lifecycle call did not return within the watchdog time although only the feeding went on: `{hung[0][5:]}` (stop() must return once the worker threads have seen the exit request)'))
         # init() is idempotent: only the first successful init() of an object asks the caller for a cloud buffer (a repeated init()
         # that built everything anew would ask again, and would forget what the decoder had learned)
-        gets, inited = 0, False
+        # every cloud handed over is followed by one get (for the next frame), from the decoding thread, at any moment: what is
+        # counted is the excess of get calls over delivered clouds since the object was created - 1 after its first init(), never more
+        gets, clouds, inited = 0, 0, False
         for l in impl_lines:
             t = l.split()
             if not t:
                 continue
             if t[0] == 'get':
                 gets += 1
+            elif t[0] == 'cloud':
+                clouds += 1
             elif t[0] in ('lcreate', 'ldestroy'):
-                inited = False; gets = 0
-            elif t[0] == 'linit':
-                if t[2] == '1':
-                    if inited and gets > 0:
-                        res.append(('init-not-idempotent', f'a repeated init() on an initialised driver called the get-cloud callback again ({gets} call(s)): it initialised the driver a second time')); break
-                    inited = True
-                gets = 0
-            elif t[0].startswith('l'):
-                gets = 0
+                inited = False; gets = 0; clouds = 0
+            elif t[0] == 'linit' and t[2] == '1':
+                inited = True
+            if inited and gets > clouds + 1:
+                res.append(('init-not-idempotent', f'the get-cloud callback was called {gets} times for {clouds} delivered clouds and one init(): a repeated init() on an initialised driver initialised it a second time')); break
         if any(l.startswith('late') for l in impl_lines):
             res.append(('late-callback', 'a callback ran after stop() / the destructor had returned: ' + [l for l in impl_lines if l.startswith('late')][0]))
         # numbering continues across restarts (until the object is destroyed or replaced)
